@@ -148,3 +148,89 @@ func VH_mutable_treap_ops() {
 	vHeapOK(t.root, "mutable")
 	vReach("end")
 }
+
+// exact content of a version, through ForEach and through the iterator in both directions
+func vCheckContent(t *Immutable, m []vKV, tag string) {
+	// model sorted by key (selection)
+	s := append([]vKV{}, m...)
+	for i := 0; i < len(s); i++ {
+		for j := i + 1; j < len(s); j++ {
+			if s[j].k < s[i].k {
+				s[i], s[j] = s[j], s[i]
+			}
+		}
+	}
+	i := 0
+	t.ForEach(func(k, v []byte) bool {
+		vAssert(i < len(s) && k[0] == s[i].k && v[0] == s[i].v, tag+": ForEach yields exactly the model's pairs in key order")
+		i++
+		return true
+	})
+	vAssert(i == len(s), tag+": ForEach yields every pair")
+	it := t.Iterator(nil, nil)
+	i = 0
+	for ok := it.First(); ok; ok = it.Next() {
+		vAssert(i < len(s) && it.Key()[0] == s[i].k && it.Value()[0] == s[i].v, tag+": forward iteration == model")
+		i++
+	}
+	vAssert(i == len(s), tag+": forward iteration visits every pair")
+	i = len(s) - 1
+	for ok := it.Last(); ok; ok = it.Prev() {
+		vAssert(i >= 0 && it.Key()[0] == s[i].k && it.Value()[0] == s[i].v, tag+": backward iteration == model")
+		i--
+	}
+	vAssert(i == -1, tag+": backward iteration visits every pair")
+}
+
+func vBuildTreap(keys, vals []byte, prios []int) *treapNode {
+	if len(keys) == 0 {
+		return nil
+	}
+	r := 0
+	for i := range keys {
+		if prios[i] < prios[r] {
+			r = i
+		}
+	}
+	nd := newTreapNode([]byte{keys[r]}, []byte{vals[r]}, prios[r])
+	nd.left = vBuildTreap(keys[:r], vals[:r], prios[:r])
+	nd.right = vBuildTreap(keys[r+1:], vals[r+1:], prios[r+1:])
+	return nd
+}
+
+// C05(1'): snapshot isolation where it is hardest: a version with three (thorough: four) keys and arbitrary
+// priorities (hence every tree shape) is kept by a reader while a writer derives a new version by deleting or
+// overwriting one key: the kept version still iterates (ForEach, iterator forwards and backwards) over exactly its
+// original pairs, and the new version over exactly the updated ones.
+//verif:opts reach=end
+func VH_immutable_treap_snapshot_under_delete() {
+	n := 3 + vTier()
+	var m []vKV
+	keys := make([]byte, n)
+	vals := make([]byte, n)
+	prios := make([]int, n)
+	for i := 0; i < n; i++ {
+		keys[i], vals[i], prios[i] = byte(10*(i+1)), vNondetU8("v"), int(vNondetU8("priority"))
+		m = vModelPut(m, keys[i], vals[i])
+	}
+	// the version is built directly from arbitrary priorities (math/rand is not under the replay's control): the
+	// unique min-heap ordered binary search tree for them, i.e. every shape Put can produce
+	root := vBuildTreap(keys, vals, prios)
+	t := newImmutable(root, n, uint64(n)*(nodeFieldsSize+2))
+	old, oldModel := t, m
+	k := byte(10 * (1 + vNondetLen("victim", n-1)))
+	var nm []vKV
+	if vNondetBool("delete") {
+		t = old.Delete([]byte{k})
+		nm = vModelDel(oldModel, k)
+	} else {
+		nv := vNondetU8("newValue")
+		t = old.Put(KVPair{Key: []byte{k}, Value: []byte{nv}})
+		nm = vModelPut(oldModel, k, nv)
+	}
+	vCheckContent(old, oldModel, "kept version")
+	vCheckContent(t, nm, "new version")
+	// (the min-heap order on priorities is NOT asserted here: Delete rotates the higher-priority child up, which
+	// breaks it for a node with two children - a balance matter only, outside the property; see DESIGN 9.3)
+	vReach("end")
+}
